@@ -435,6 +435,48 @@ def p_same_expr_query_before_build(version):
     return "DIFFERENT\n" + t1 + "\n-----\n" + t2
 
 
+def _canon_labels(text):
+    lines = text.split("\n")
+    ren = {}
+    for l in lines:
+        s = l.strip()
+        if s.endswith(":") and " " not in s:
+            ren.setdefault(s[:-1], "L%d" % len(ren))
+    out = []
+    for l in lines:
+        toks = l.split(" ")
+        out.append(" ".join((ren[t[:-1]] + ":") if (t.endswith(":") and t[:-1] in ren) else ren.get(t, t) for t in toks))
+    return "\n".join(out)
+
+
+def p_same_expr_version_order(version):
+    """a program whose subroutine stores the result of an ABI-returning subroutine and allocates ABI values
+    afterwards: its version-8 text must be the same whether or not the SAME objects were compiled for version 7
+    (and with frame pointers off) before"""
+    def build():
+        @pt.ABIReturnSubroutine
+        def inner(x: abi.Uint64, *, output: abi.Uint64) -> pt.Expr:
+            return output.set(x.get() + pt.Int(1))
+
+        @pt.Subroutine(pt.TealType.uint64)
+        def outer(k):
+            a, b = abi.Uint64(), abi.Uint64()
+            first = pt.Seq(a.set(k), inner(a).store_into(b))
+            c, d = abi.Uint64(), abi.String()      # allocated AFTER the nested declaration was evaluated
+            return pt.Seq(first, c.set(b.get() * pt.Int(2)), d.set("xy"), c.get() + pt.Len(d.get()))
+        return pt.Seq(pt.Pop(outer(pt.Int(5))), pt.Int(1))
+    e1 = build()
+    fresh8 = pt.compileTeal(e1, pt.Mode.Application, version=8)
+    e2 = build()
+    pt.compileTeal(e2, pt.Mode.Application, version=7)
+    pt.compileTeal(e2, pt.Mode.Application, version=8, optimize=pt.OptimizeOptions(frame_pointers=False))
+    after = pt.compileTeal(e2, pt.Mode.Application, version=8)
+    t1, t2 = _canon_labels(fresh8), _canon_labels(after)
+    if equal_up_to_slot_renumbering(t1, t2):
+        return "SAME"
+    return "DIFFERENT\n" + t1 + "\n-----\n" + t2
+
+
 def p_router_twice(version):
     r = _router()
     a1 = r.compile_program(version=version)
@@ -532,7 +574,7 @@ def s_named(version, mid):
 SPLIT_PROBES = {"split_slots": s_slots, "split_subs": s_subs, "split_router": s_router, "split_abi": s_abi,
                 "split_named": s_named}
 
-PROBES = {"templates_tied": p_templates_tied, "same_expr_query_before_build": p_same_expr_query_before_build, "recursive_reserved": p_recursive_reserved, "named_things": p_named_things, "abi_main": p_abi_main, "recursive": p_recursive, "router": p_router, "slots": p_slots,
+PROBES = {"same_expr_version_order": p_same_expr_version_order, "templates_tied": p_templates_tied, "same_expr_query_before_build": p_same_expr_query_before_build, "recursive_reserved": p_recursive_reserved, "named_things": p_named_things, "abi_main": p_abi_main, "recursive": p_recursive, "router": p_router, "slots": p_slots,
           "same_expr_twice": p_same_expr_twice, "same_expr_probe_between": p_same_expr_probe_between,
           "router_twice": p_router_twice, "same_expr_one_compilation_object": p_same_compilation_twice}
 PROBE_VERSIONS = (6, 8)
